@@ -581,7 +581,13 @@ func (w *_builder) Build() datamodel.Node {
 }
 
 func (w *_builder) Reset() {
-	panic("bindnode TODO: Reset")
+	// Start over with a fresh value of the same Go type;
+	// a node returned by an earlier Build keeps the old value.
+	*w = _builder{_assembler{
+		cfg:        w.cfg,
+		schemaType: w.schemaType,
+		val:        reflect.New(w.val.Type()).Elem(),
+	}}
 }
 
 type _assembler struct {
